@@ -15,8 +15,17 @@ import AtreeProofs.World.HeapCont
   * `mdataOf_ok`    — one data slab of the tree of a standalone map;
   * `groupOf_ok`    — one external collision-group slab;
   * `mindex_ok`     — one index slab (`MapMetaOK`);
-  * `map_tree_goal` — every slab of the tree of a standalone map meets `SlabGoal`;
+  * `map_tree_goal` — every slab of the tree of a standalone map meets `SlabGoal` (`map_slabs_goal`:
+                      the same over `Cont.slabs`);
   * `mapInl_goal`   — every slab an INLINED map owns (its external collision-group slabs) meets `SlabGoal`.
+
+  "Local values / keys of a slab are values / keys of `toList`" is PROVED here (`local_sub_toList`,
+  for data slabs and group slabs), so `map_tree_goal` / `mapInl_goal` take goodness of the values and
+  validity of the keys of `m.toList`, not per-slab hypotheses.  The ID hypotheses are phrased over
+  `Cont.treeIds` (pairwise different; 64-bit address and index) — what `World.HeapOk` gives (`nodup`,
+  `addr`, `below`) with a 64-bit world address and allocation counter.  `Nodup` is needed to know
+  that only the root slab carries the extra data (`Cont.treeSlabs` attaches it by comparing IDs).
+  Non-vacuity: `AtreeProofs/WorldCodec/MapSlabExample.lean`.
 -/
 namespace Atree.WC
 open Atree Atree.Codec Gen World
@@ -392,6 +401,19 @@ theorem map_tree_goal {w : World} (E : Env w) (hT : legalThreshold w.T = true) {
         obtain ⟨v, hv⟩ := (mem_keys_iff _ id).1 hid
         exact mem_keys_of_mem (List.mem_flatMap.2 ⟨c, hc, hv⟩)
       exact key root htree hkv hids hnx hsub
+
+/-- the same for the slabs the standalone map owns in storage (`Cont.slabs` = its whole tree) -/
+theorem map_slabs_goal {w : World} (E : Env w) (hT : legalThreshold w.T = true) {D : DigestFn 4}
+    (hD : ∀ p, ∀ h ∈ D.dg p, h < 2 ^ 64) (m : OMap 3) (hinv : MapInv w.T D m)
+    (hnd : (Cont.map m).treeIds.Nodup)
+    (hids : ∀ id ∈ (Cont.map m).treeIds, id.addr < 2 ^ 64 ∧ id.idx < 2 ^ 64)
+    (hty : m.ty < 2 ^ 64) (hcnt : m.count < 2 ^ 64) (hseed : m.seed < 2 ^ 64)
+    (hval : ∀ v ∈ m.toList.map (·.2), Good w v)
+    (hkey : ∀ kv ∈ m.toList, validElem ⟨kv.1.size, .val kv.1.pay⟩) :
+    ∀ p ∈ (Cont.map m).slabs, SlabGoal w p.1 p.2 := by
+  have hst : (Cont.map m).isInlined = false := hinv.standalone
+  rw [Cont.slabs_of_standalone hst]
+  exact map_tree_goal E hT hD m hinv hnd hids hty hcnt hseed hval hkey
 
 /-- THE SLABS AN INLINED MAP OWNS (its external collision-group slabs; the root slab is embedded in
     the slab of the parent) meet the goal. -/
